@@ -144,21 +144,23 @@ class Engine:
         if z3.is_true(c):
             return st
         q = st.conds + [c]
-        full = [z3.simplify(x) for x in q]
+        full = [VAL.simp(x) for x in q]
         full = full + ground_axioms(full)
         self.nprune += 1
         # 1. recursive definitions abstracted (uninterpreted twins + instantiated lemmas): fast, `unsat` is sound
         s1 = z3.Solver()
         s1.set('timeout', self.prune_ms)
         s1.add(*abstract_recs(full))
-        if s1.check() == z3.unsat:
+        r1 = s1.check()
+        if r1 == z3.unsat:
             return None
-        # 2. with the definitions, short budget
-        s2 = z3.Solver()
-        s2.set('timeout', 60)
-        s2.add(*full)
-        if s2.check() == z3.unsat:
-            return None
+        if r1 == z3.unknown:
+            # 2. with the definitions, short budget
+            s2 = z3.Solver()
+            s2.set('timeout', 60)
+            s2.add(*full)
+            if s2.check() == z3.unsat:
+                return None
         return st.assume(c)
 
     def branches(self, st, alts):
@@ -239,6 +241,8 @@ class Engine:
         """view of a value for reading (no escape)"""
         if isinstance(v, PyRef):
             return st.heap[v.loc]
+        if isinstance(v, FieldRef):
+            return z3.Select(st.fields.get(v.attr, field0(v.attr)), v.obj)
         if isinstance(v, PyMapped):
             return v.term
         if z3.is_expr(v):
@@ -283,6 +287,7 @@ class Engine:
             elif n == 'dict': tests.append(V.is_Dict(v))
             elif n == 'tuple': tests.append(V.is_Tuple(v))
             elif n == 'set': tests.append(V.is_Set(v))
+            elif n == 'partial': tests.append(z3.And(V.is_Fun(v), lookup(V.fbound(v), S('__partial__')) != V.Missing))
             elif n in self.T.cid: tests.append(self.is_instance_of(v, n))
             else: raise OutOfSubset(f"isinstance against {n}")
         return z3.Or(*tests) if tests else z3.BoolVal(False)
@@ -619,6 +624,17 @@ class Engine:
             if isinstance(vs, Raise):
                 out.append((s, vs)); continue
             l, r = self.read(vs[0], s), self.read(vs[1], s)
+            dunder = {ast.Add: '__add__'}.get(type(e.op))
+            done = False
+            if dunder:
+                for cn, ci in self.T.classes.items():
+                    if dunder in ci.methods and self.fork(s, z3.Not(self.is_instance_of(l, cn))) is None:
+                        key = f"{ci.module}::{cn}.{dunder}"
+                        out += self.call_repo_function(key, s, [l, r], {})
+                        done = True
+                        break
+            if done:
+                continue
             if isinstance(e.op, ast.Add):
                 out += self.branches(s, [
                     (z3.And(is_intlike(l), is_intlike(r)), V.Int(int_of(l) + int_of(r))),
@@ -672,6 +688,8 @@ class Engine:
             r = hook(self, st, v, attr)
             if r is not None:
                 return r
+        if attr == 'keywords' and self.fork(st, z3.Not(V.is_Fun(v))) is None:
+            return [(st, V.Dict(V.fbound(v)))]       # functools.partial.keywords (extra marker entries are never looked up)
         cn = self.known_class(v)
         if cn is not None:
             return self.getattr_class(v, cn, attr, st)
@@ -766,6 +784,12 @@ class Engine:
         if kind == 'prop':
             key = f"{self.T.classes[owner].module}::{owner}.{attr}"
             return self.call_repo_function(key, st, [v], {})
+        if kind == 'method' and attr in (getattr(self.contract, 'instance_overrides', ()) if self.contract else ()):
+            # an instance attribute may shadow the method (set by located_error): Missing in the attribute array = not shadowed
+            key = f"{self.T.classes[owner].module}::{owner}.{attr}"
+            meth = V.Fun(fun_id(key), mklist(V.Pair(S('self'), v)))
+            inst = z3.Select(st.fields.get(attr, field0(attr)), v)
+            return [(st, z3.If(inst == V.Missing, meth, inst))]
         if kind == 'method':
             key = f"{self.T.classes[owner].module}::{owner}.{attr}"
             return [(st, PyFunc(key, lambda en, s, a, kw, key=key, v=v: en.call_repo_function(key, s, [v] + list(a), kw),
@@ -1075,7 +1099,7 @@ class Engine:
 
     def elem_facts_for(self, st, seq, x):
         seq = z3.simplify(seq)
-        return [pred(x) for (t, pred) in st.elem_preds if z3.simplify(t).eq(seq)]
+        return [(pred(x) if g is None else z3.Implies(g, pred(x))) for (t, pred, g) in st.elem_preds if z3.simplify(t).eq(seq)]
 
     def iter_elem(self, d, k, st, facts=None):
         n = self.iter_len(d, st)
@@ -1161,6 +1185,20 @@ class Engine:
         if isinstance(fn, ast.Attribute) and isinstance(fn.value, ast.Call) and isinstance(fn.value.func, ast.Name) and fn.value.func.id == 'super':
             return self.super_call(e, st)
         out = []
+        if isinstance(fn, ast.Attribute) and fn.attr in MUTATORS and isinstance(fn.value, ast.Attribute):
+            # obj.attr.append(x): in-place mutation of a container held in an attribute
+            for (s0, o) in self.ev(fn.value.value, st):
+                if isinstance(o, Raise):
+                    out.append((s0, o)); continue
+                if not z3.is_expr(o):
+                    raise OutOfSubset("mutation through an attribute of a non-object")
+                for (s1, cur) in self.getattr(o, fn.value.attr, s0):
+                    if isinstance(cur, Raise):
+                        out.append((s1, cur)); continue
+                    ref = FieldRef(o, fn.value.attr)
+                    for (s2, a, kw) in self.ev_args(e, s1, out):
+                        out += self.container_method(ref, fn.attr, s2, a, kw)
+            return out
         for (s0, f) in self.ev(fn, st):
             if isinstance(f, Raise):
                 out.append((s0, f)); continue
@@ -1271,6 +1309,8 @@ class Engine:
                     name = interned_text(k.as_long()) if z3.is_int_value(k) else None
                     if name is None:
                         raise OutOfSubset("bound keyword with symbolic name")
+                    if name == '__partial__':
+                        continue
                     if name == 'self':
                         selfv = z3.simplify(V.snd(p))
                     elif name not in kw2:
@@ -1430,12 +1470,94 @@ class Engine:
             if recv.loc in st.escaped:
                 raise OutOfSubset("mutation of a container after it escaped (aliasing not modelled)")
             return st.put_heap(recv.loc, new_content)
+        if isinstance(recv, FieldRef):
+            return self.setattr(recv.obj, recv.attr, new_content, st)
         raise OutOfSubset("mutation of a container not owned by this activation (declare it mutable in the contract)")
 
     # ------------------------------------------------------------------ statements
+    def merge_states(self, states):
+        """join several fall-through states into one (path conditions disjoined, differing values become if-then-else terms);
+        returns None when the states are not structurally compatible.  Used at loop entries to avoid re-running loop bodies."""
+        if len(states) < 2:
+            return None
+        first = states[0]
+        n = min(len(s.conds) for s in states)
+        k = 0
+        while k < n and all(s.conds[k].eq(first.conds[k]) for s in states):
+            k += 1
+        guards = [z3.And(*s.conds[k:]) if len(s.conds) > k else z3.BoolVal(True) for s in states]
+
+        def ite(vals):
+            r = vals[-1]
+            for g, v in zip(reversed(guards[:-1]), reversed(vals[:-1])):
+                r = z3.If(g, v, r)
+            return r
+        env = {}
+        keys = set(first.env)
+        if any(set(s.env) != keys for s in states):
+            keys = set.intersection(*[set(s.env) for s in states])
+        heap = dict(first.heap)
+        for key in keys:
+            vals = [s.env[key] for s in states]
+            if all(v is vals[0] for v in vals) or all(z3.is_expr(v) and v.eq(vals[0]) for v in vals if z3.is_expr(vals[0])) and all(z3.is_expr(v) for v in vals):
+                env[key] = vals[0]
+            elif all(z3.is_expr(v) for v in vals):
+                env[key] = ite(vals)
+            elif all(isinstance(v, PyRef) for v in vals) and all(v.kind == vals[0].kind for v in vals):
+                if any(v.loc in s.escaped for v, s in zip(vals, states)):
+                    return None
+                loc = self.alloc()
+                heap[loc] = ite([s.heap[v.loc] for v, s in zip(vals, states)])
+                env[key] = PyRef(loc, vals[0].kind)
+            elif all(isinstance(v, PyFunc) for v in vals) and all(v.name == vals[0].name for v in vals):
+                env[key] = vals[0]
+            elif all(isinstance(v, (PyClassRef, PyModule)) for v in vals) and all(v.name == vals[0].name for v in vals):
+                env[key] = vals[0]
+            else:
+                try:
+                    ts = [self.term(v, s, escape=False)[0] for v, s in zip(vals, states)]
+                except OutOfSubset:
+                    return None
+                env[key] = ite(ts)
+        for s in states[1:]:
+            for loc, c in s.heap.items():
+                if loc not in heap:
+                    heap[loc] = c
+                elif not heap[loc].eq(c) and loc in first.heap and not any(isinstance(v, PyRef) and v.loc == loc for v in env.values()):
+                    pass
+        # heap entries referenced by unchanged PyRefs must agree
+        for key, v in env.items():
+            if isinstance(v, PyRef) and v.loc in first.heap:
+                cs = [s.heap.get(v.loc) for s in states]
+                if any(c is None for c in cs):
+                    return None
+                if not all(c.eq(cs[0]) for c in cs):
+                    heap[v.loc] = ite(cs)
+        fields = {}
+        for a in set().union(*[set(s.fields) for s in states]):
+            arrs = [s.fields.get(a, field0(a)) for s in states]
+            fields[a] = arrs[0] if all(x.eq(arrs[0]) for x in arrs) else ite(arrs)
+        ghost = {}
+        for gk in set().union(*[set(s.ghost) for s in states]):
+            gs = [s.ghost.get(gk) for s in states]
+            if any(g is None for g in gs):
+                return None
+            ghost[gk] = gs[0] if all(x.eq(gs[0]) for x in gs) else ite(gs)
+        merged = State(list(first.conds[:k]) + [z3.Or(*guards)], env, heap, fields, ghost, any(s.taint for s in states),
+                       frozenset().union(*[s.escaped for s in states]), {}, first.cur_exc,
+                       first.elem_preds, frozenset.intersection(*[s.inited for s in states]))
+        if any(s.cur_exc is not first.cur_exc for s in states) or any(s.elem_preds != first.elem_preds for s in states):
+            return None
+        return merged
+
     def block(self, stmts, st):
         states = [(st, 'fall', None)]
         for sm in stmts:
+            if isinstance(sm, (ast.For, ast.While)) and sum(1 for x in states if x[1] == 'fall') > 1 and not getattr(self.contract, 'no_merge', False):
+                falls = [x[0] for x in states if x[1] == 'fall']
+                m = self.merge_states(falls)
+                if m is not None:
+                    states = [x for x in states if x[1] != 'fall'] + [(m, 'fall', None)]
             nxt = []
             for (s, kind, v) in states:
                 if kind == 'fall':
@@ -1842,6 +1964,12 @@ class KwBundle:
     """**kwargs of a wrapper: known keys plus an optional opaque rest (forwarded intact)"""
     def __init__(self, known, rest=None):
         self.known, self.rest = dict(known), rest
+
+
+class FieldRef:
+    """obj.attr used as the receiver of a mutating container method: the container lives in the attribute array"""
+    def __init__(self, obj, attr):
+        self.obj, self.attr = obj, attr
 
 
 class ItemRef:
